@@ -83,9 +83,13 @@ func (*capRows) Close() error                { return nil }
 func (*capRows) Next([]driver.Value) error   { return io.EOF }
 
 func capStore(feats features.FeatureSet, aloneInBucket bool) (*Store, *capRecorder) {
+	return capStoreOf(feats, aloneInBucket, "L#1", 7)
+}
+
+func capStoreOf(feats features.FeatureSet, aloneInBucket bool, name string, id int) (*Store, *capRecorder) {
 	rec := &capRecorder{}
 	db := bun.NewDB(sql.OpenDB(capConnector{rec}), pgdialect.New())
-	l := ledger.Ledger{Name: "L#1", ID: 7, State: ledger.StateInUse}
+	l := ledger.Ledger{Name: name, ID: id, State: ledger.StateInUse}
 	l.Bucket = "_default"
 	l.Features = feats
 	opts := []Option{}
@@ -215,6 +219,17 @@ func TestVerifSQLCap(t *testing.T) {
 				l := ledger.NewLog(ledger.SavedMetadata{TargetType: ledger.MetaTargetTypeAccount, TargetID: "ACC#1", Metadata: metadata.Metadata{}})
 				l.IdempotencyKey = "IK#1"
 				return st.InsertLog(ctx, &l)
+			})
+			// the same write on a second ledger of the bucket (lock keys and sequence names must be per ledger)
+			st2, rec2 := capStoreOf(feats, alone, "L#2", 8)
+			emit("InsertLog", base("ledger", "2"), st2, rec2, func() error {
+				l := ledger.NewLog(ledger.SavedMetadata{TargetType: ledger.MetaTargetTypeAccount, TargetID: "ACC#1", Metadata: metadata.Metadata{}})
+				l.IdempotencyKey = "IK#1"
+				return st2.InsertLog(ctx, &l)
+			})
+			emit("CommitTransaction", base("ledger", "2"), st2, rec2, func() error {
+				tx := ledger.NewTransaction().WithPostings(ledger.NewPosting("ACC#1", "ACC#2", "AST#1", big.NewInt(700000005)))
+				return st2.CommitTransaction(ctx, &tx)
 			})
 			emit("CommitTransaction", base(), st, rec, func() error {
 				tx := ledger.NewTransaction().WithPostings(ledger.NewPosting("ACC#1", "ACC#2", "AST#1", big.NewInt(700000005)))
